@@ -159,9 +159,10 @@ func (s *Sandbox) blobPut(ls *lua.LState) int {
 	}
 	r := s.checkReference(ls, 1)
 	var d digest.Digest
-	s.log.Debug("Put blob",
+	s.log.Info("Put blob",
 		slog.String("script", s.name),
-		slog.String("ref", r.r.CommonName()))
+		slog.String("ref", r.r.CommonName()),
+		slog.Bool("dry-run", s.dryRun))
 
 	if ls.GetTop() < 2 {
 		ls.ArgError(2, "blob content expected")
@@ -187,6 +188,21 @@ func (s *Sandbox) blobPut(ls *lua.LState) int {
 	}
 	if rdr == nil {
 		ls.ArgError(2, "blob content expected")
+	}
+
+	if s.dryRun {
+		// nothing is pushed, the digest and size are computed from the content
+		digester := digest.Canonical.Digester()
+		if d != "" && d.Validate() == nil {
+			digester = d.Algorithm().Digester()
+		}
+		size, err := io.Copy(digester.Hash(), rdr)
+		if err != nil {
+			ls.RaiseError("Failed to read blob: %v", err)
+		}
+		ls.Push(lua.LString(digester.Digest().String()))
+		ls.Push(lua.LNumber(size))
+		return 2
 	}
 
 	dOut, err := s.rc.BlobPut(s.ctx, r.r, descriptor.Descriptor{Digest: d}, rdr)
